@@ -133,7 +133,7 @@ theorem esc_step (e : Ep) (ev : Ev) (hp : e.cfg.privExt = false) : noEsc (step e
     · split
       · simp
       · exact esc_processQueue { e with pqPend := false } hp
-  | pump n => simp only []; split <;> simp
+  | pump n => simp only []; split <;> (try split) <;> simp
   | rx c => simp only []; split <;> simp
   | rxEof => simp only []; split <;> simp
   | keepaliveTimer => simp only []; split <;> (try split) <;> simp
